@@ -1956,6 +1956,58 @@ example :
       = [.exited, .wait 1, .wait 1] := by decide
 
 
+/-! ### round 7 — `Router.Send` towards the own identity (`Model/C09Self.lean`, `sendAny`) -/
+
+/-- the small specification of the self branch: the messages before the first one the dispatcher refuses are
+dispatched, in order; the call fails iff there is such a message -/
+theorem c09_self_send_spec (msgs : List SelfMsg) :
+    selfSend msgs = { dispatched := (msgs.takeWhile (·.handled)).map (·.m),
+                      res := if msgs.all (·.handled) then .ok else .err } := by
+  induction msgs with
+  | nil => rfl
+  | cons x l ih =>
+    simp only [selfSend]
+    cases hx : x.handled
+    · simp [List.takeWhile, hx]
+    · simp [List.takeWhile, hx, ih]
+
+/-- **a send to oneself is local**: whatever the connection table holds, whoever listens (nobody, for instance),
+however many dial attempts a connect would cost — the state of the router is untouched: no dial, no wait, no entry
+made or used; and when every message has a processor the call succeeds and all of them are dispatched in order.
+Falsified by a `Send` that treats the own identity like any other destination (it would dial its own address and
+fail whenever the listener is down), or that goes on after a refused message. -/
+theorem c09_self_send_is_local (self : Peer) (s : St) (msgs : List SelfMsg) (staleOk : Bool) :
+    (sendAny self s self msgs staleOk).1 = s ∧
+    (msgs ≠ [] → (∀ x ∈ msgs, x.handled = true) →
+      (sendAny self s self msgs staleOk).2 = (.ok, msgs.map (·.m))) := by
+  refine ⟨?_, fun hne hall => ?_⟩
+  · unfold sendAny; split <;> simp
+  · have he : msgs.isEmpty = false := by cases msgs <;> simp_all
+    have hall' : msgs.all (·.handled) = true := by simpa [List.all_eq_true] using hall
+    have htw : ∀ l : List SelfMsg, (∀ x ∈ l, x.handled = true) → l.takeWhile (·.handled) = l := by
+      intro l; induction l with
+      | nil => intro _; rfl
+      | cons y t ih =>
+        intro h
+        have hy : y.handled = true := h y (by simp)
+        simp only [List.takeWhile, hy]
+        rw [ih (fun x hx => h x (List.mem_cons_of_mem _ hx))]
+    have htw := htw msgs hall
+    simp [sendAny, he, c09_self_send_spec, hall', htw]
+
+/-- for every other destination `sendAny` is `send` -/
+theorem c09_send_any_other (self : Peer) (s : St) (p : Peer) (msgs : List SelfMsg) (staleOk : Bool) (hp : p ≠ self) :
+    (sendAny self s p msgs staleOk).1 = (send s p (msgs.map (·.m)) staleOk).1 ∧
+    (sendAny self s p msgs staleOk).2.1 = (send s p (msgs.map (·.m)) staleOk).2 := by
+  unfold sendAny send
+  cases msgs with
+  | nil => simp
+  | cons x l => simp [hp]
+
+example : selfSend [⟨1, true⟩, ⟨2, true⟩, ⟨3, false⟩, ⟨4, true⟩] = { dispatched := [1, 2], res := .err } := by decide
+example : (sendAny 9 { up := [] } 9 [⟨1, true⟩, ⟨2, true⟩] false).2 = (.ok, [1, 2]) := by decide
+
+
 /-! ### the code regions the model stands for
 Regenerated from /repo's source on every run (`harness/cmd/astfacts` → `OnetVerif/Shapes.lean`): the
 calls that matter for synchronisation and data flow, the lock regions and (for decision logic) the
